@@ -6,7 +6,7 @@ os.environ["ODMLSA_NOEVIDENCE"] = "1"
 from odmlsa.model import load_sources, AnalysisError
 from odmlsa.selftest import apply_unified_diff, _run_check_on
 
-PIDS = ["C%02d" % i for i in range(1, 21) if i != 14]
+PIDS = ["C%02d" % i for i in range(1, 21)]
 
 def job(args):
     seed, patch_path, pid = args
